@@ -7,9 +7,7 @@ import (
 	"strings"
 
 	"github.com/makiuchi-d/gozxing"
-	"github.com/makiuchi-d/gozxing/datamatrix"
 	dmenc "github.com/makiuchi-d/gozxing/datamatrix/encoder"
-	"github.com/makiuchi-d/gozxing/qrcode"
 	qrenc "github.com/makiuchi-d/gozxing/qrcode/encoder"
 
 	"verifharness/fw"
@@ -55,7 +53,7 @@ func c13QRByteHinted(r *fw.Rec, l qrref.Level, n, forced int, viaWriter bool) bo
 	if viaWriter {
 		hints[gozxing.EncodeHintType_ERROR_CORRECTION] = qrLibLevel[l]
 		var bm *gozxing.BitMatrix
-		bm, err = qrcode.NewQRCodeWriter().Encode(text, gozxing.BarcodeFormat_QR_CODE, 0, 0, hints)
+		bm, err = instQRWriter().Encode(text, gozxing.BarcodeFormat_QR_CODE, 0, 0, hints)
 		if err == nil {
 			got = (bm.GetWidth() - 8 - 17) / 4
 		}
@@ -119,7 +117,7 @@ func c13QROneGS1(r *fw.Rec, mode qrref.Mode, l qrref.Level, n, forced int, viaWr
 			r.Tally("qr_writer_default_level")
 		}
 		var bm *gozxing.BitMatrix
-		bm, err = qrcode.NewQRCodeWriter().Encode(text, gozxing.BarcodeFormat_QR_CODE, 0, 0, hints)
+		bm, err = instQRWriter().Encode(text, gozxing.BarcodeFormat_QR_CODE, 0, 0, hints)
 		if err == nil {
 			d := bm.GetWidth() - 8
 			if bm.GetWidth() != bm.GetHeight() || (d-17)%4 != 0 {
@@ -212,7 +210,7 @@ func c13DMWriter(r *fw.Rec, n, shape int, min, max *[2]int) bool {
 	var bm *gozxing.BitMatrix
 	var err error
 	msg, stack, panicked := fw.Guard(func() {
-		bm, err = datamatrix.NewDataMatrixWriter().Encode(string(digits), gozxing.BarcodeFormat_DATA_MATRIX, 0, 0, hints)
+		bm, err = instDMWriter().Encode(string(digits), gozxing.BarcodeFormat_DATA_MATRIX, 0, 0, hints)
 	})
 	r.Evals(1)
 	if panicked {
@@ -263,7 +261,7 @@ func c13DMBinary(r *fw.Rec, n, shape int) bool {
 	var bm *gozxing.BitMatrix
 	var err error
 	msg, stack, panicked := fw.Guard(func() {
-		bm, err = datamatrix.NewDataMatrixWriter().Encode(string(rs), gozxing.BarcodeFormat_DATA_MATRIX, 0, 0, hints)
+		bm, err = instDMWriter().Encode(string(rs), gozxing.BarcodeFormat_DATA_MATRIX, 0, 0, hints)
 	})
 	r.Evals(1)
 	if panicked {
